@@ -343,9 +343,10 @@ CHECKS = {
         "quick": {"procs": 32, "checks_per_proc": 60},
         "thorough": {"procs": 64, "checks_per_proc": 3000},
         "rule": "one case = a seeded account history (0-9 contact / contact-request operations, optionally a joined multi-member group "
-                "with 0-5 metadata/message entries) exported by the real service.export at that point, one archive fault from "
-                "{none, flipped bit in an entry / heads / key member, dropped entry, dropped key, duplicated key, duplicated entry, "
-                "reordered members, truncation, restore onto a used store} and the real RestoreAccountExport on a fresh node without "
+                "with 0-5 metadata/message entries, in half of these cases merged with the entries of another member written while "
+                "partitioned) exported by the real service.export at that point, one archive fault from "
+                "{none, flipped bit in an entry / heads / key member, dropped entry, dropped key, both keys dropped, duplicated key, "
+                "duplicated entry, entry re-encoded non-canonically, reordered members, truncation, restore onto a used store} and the real RestoreAccountExport on a fresh node without "
                 "network on the simulated clock; non-trivial = a fault was injected or the restored node was compared group by group; "
                 "distinct = distinct hash of the trace.",
         "required_probes": ["restored_and_compared", "invalid_archive_rejected"],
